@@ -254,12 +254,21 @@ def _run_assignlabels(desc):
     """refinegrains.assignlabels: each grain sees g-vectors recomputed for its OWN position (C compute_gv); all orders of the
     grain list; oracle = arg-min over per-grain errors with g-vectors from the Python reference formulas"""
     _, gi, tier = desc
+    sh = Shard()
+    for flavour in ("displaced", "origin-mixed"):
+        _assignlabels_flavour(sh, gi, tier, flavour)
+    return sh
+
+
+def _assignlabels_flavour(sh, gi, tier, flavour):
     import io, contextlib, shutil
     from ImageD11 import refinegrains, transform as tr, grain as gm, parameters as P
     from vt.props import c09
-    sh = Shard()
     pars = c09.geometries("thorough")[(gi * 5) % 128]
     truth = c09.true_grains(3, seed_of())
+    if flavour == "origin-mixed":
+        # freshly indexed grains sit at the origin until their position is refined: grains 0 and 2 at (0,0,0), the others displaced
+        truth = [(truth[0][0], np.zeros(3)), truth[1], (truth[2][0], np.zeros(3))]
     # a competitor: grain 0 rotated by 0.2 degrees, sitting somewhere else
     u0, t0 = truth[0]
     comp = (np.dot(u0, O.rotation_from_axis_angle((1, 2, 3), 0.2).T), t0 + np.array([200.0, -150.0, 80.0]))
@@ -285,7 +294,7 @@ def _run_assignlabels(desc):
             d = h - np.round(h)
             errs.append((d * d).sum(axis=0))
         errs = np.array(errs)
-        for tol in (0.02, 0.05):
+        for tol in ((0.02, 0.05) if flavour == "displaced" else (0.03,)):
             for order in itertools.permutations(range(4)):
                 with contextlib.redirect_stdout(io.StringIO()):
                     o = refinegrains.refinegrains(tolerance=tol, OmFloat=False)
@@ -316,7 +325,7 @@ def _run_assignlabels(desc):
                 border = (np.abs(e - tol2) < 1e-7).any(axis=0)
                 emask = np.where(elig, e, np.inf)
                 best = emask.min(axis=0)
-                case = {"kind": "assignlabels", "geometry": (gi * 5) % 128, "order": list(order), "tol": tol, "seed": seed_of()}
+                case = {"kind": "assignlabels", "geometry": (gi * 5) % 128, "order": list(order), "tol": tol, "seed": seed_of(), "positions": flavour}
                 none = ~elig.any(axis=0)
                 ok = True
                 bad = none & ~border & (labels != -1)
@@ -346,7 +355,6 @@ def _run_assignlabels(desc):
         sh.sample(case, limit=1)
     finally:
         shutil.rmtree(wd, ignore_errors=True)
-    return sh
 
 
 _V = None
@@ -442,7 +450,8 @@ def replay(case):
     sh = Shard()
     os.environ["VERIF_SEED"] = str(case.get("seed", 0))
     if case["kind"] == "assignlabels":
-        r = _run_assignlabels(("assignlabels", case["geometry"] // 5 if case["geometry"] % 5 == 0 else 0, "quick"))
+        gi = [g_ for g_ in range(32) if (g_ * 5) % 128 == case["geometry"]][0]
+        r = _run_assignlabels(("assignlabels", gi, "quick"))
         sh.violations = [v for v in r.violations if v["case"]["order"] == case["order"] and v["case"]["tol"] == case["tol"]]
     elif case["kind"] == "hist":
         r = _run_hist(("hist", 0, 1))
